@@ -116,6 +116,16 @@ def scenarios(tier):
     # a process that merely opens a table with a past (superseded rows) next to a writer of another key
     sc.append(dict(name='table with superseded rows: set k3 || open direct', backend=b, prior=PH, actors=[W(('set', 'k3', 'new3')), O(False)]))
     sc.append(dict(name='table with superseded rows: set k3 || open cached', backend=b, prior=PH, actors=[W(('set', 'k3', 'new3')), O(True)]))
+    # ... and a writer that supersedes a row itself (its own handle was opened on a table without a past) before it stores
+    # another key, next to a process that merely opens the table
+    sc.append(dict(name='overwrite k1, set k3 || open direct', backend=b, prior=P1,
+                   actors=[W(('set', 'k1', 'new1'), ('set', 'k3', 'new3')), O(False)]))
+    sc.append(dict(name='overwrite k1, set k3 || open cached', backend=b, prior=P1,
+                   actors=[W(('set', 'k1', 'new1'), ('set', 'k3', 'new3')), O(True)]))
+    if tier == 'thorough':
+        for b2 in dirs:
+            sc.append(dict(name='overwrite k1, set k3 || open cached', backend=b2, prior=P1,
+                           actors=[W(('set', 'k1', 'new1'), ('set', 'k3', 'new3')), O(True)]))
     if tier == 'thorough':
         sc.append(dict(name='table with superseded rows: del k2 || open direct', backend=b, prior=PH, actors=[W(('del', 'k2')), O(False)]))
         sc.append(dict(name='table with superseded rows: set k3 || items', backend=b, prior=PH, actors=[W(('set', 'k3', 'new3')), R(('items',))]))
